@@ -275,7 +275,17 @@ func (l *Lexer) readString(delimiter byte) string {
 						l.ReadChar() // consume second hex digit
 						// Convert hex digits to byte value
 						value := hexDigitValue(hex1)*16 + hexDigitValue(hex2)
-						result.WriteByte(byte(value))
+						if keepEscaped(value) {
+							// Decoding would break the re-quoted literal: keep the escape
+							result.WriteString("\\x")
+							result.WriteByte(hex1)
+							result.WriteByte(hex2)
+							continue
+						}
+						// \xHH denotes the code point U+00HH
+						for _, b := range encodeUTF8(value) {
+							result.WriteByte(b)
+						}
 						continue
 					}
 				}
@@ -341,6 +351,13 @@ func (l *Lexer) readString(delimiter byte) string {
 						continue
 					}
 
+					if keepEscaped(value) {
+						result.WriteString("\\u{")
+						result.Write(hexDigits)
+						result.WriteByte('}')
+						continue
+					}
+
 					// Convert to UTF-8 and add to result
 					utf8Bytes := encodeUTF8(value)
 					for _, b := range utf8Bytes {
@@ -363,6 +380,11 @@ func (l *Lexer) readString(delimiter byte) string {
 									l.ReadChar() // consume fourth hex digit
 									// Convert 4 hex digits to Unicode value
 									value := hexDigitValue(hex1)*4096 + hexDigitValue(hex2)*256 + hexDigitValue(hex3)*16 + hexDigitValue(hex4)
+									if keepEscaped(value) {
+										result.WriteString("\\u")
+										result.Write([]byte{hex1, hex2, hex3, hex4})
+										continue
+									}
 									// Convert to UTF-8 and write the bytes
 									utf8Bytes := encodeUTF8(value)
 									for _, b := range utf8Bytes {
@@ -395,9 +417,22 @@ func (l *Lexer) readString(delimiter byte) string {
 		if l.CurrentChar == delimiter {
 			break
 		}
+		if l.CurrentChar == '"' {
+			// A double quote inside a single-quoted string: the literal is printed with double quotes
+			result.WriteByte('\\')
+		}
 		result.WriteByte(l.CurrentChar)
 	}
 	return result.String()
+}
+
+// keepEscaped reports whether an escape sequence denoting the given code point must stay
+// escaped, because the decoded character cannot appear as such in a double-quoted string
+// literal (line terminators, the quote, the backslash), is not a character at all
+// (a surrogate half), or would extend a preceding \0 or octal escape (a digit).
+func keepEscaped(value int) bool {
+	return value == '\n' || value == '\r' || value == '"' || value == '\\' ||
+		(value >= '0' && value <= '9') || (value >= 0xD800 && value <= 0xDFFF)
 }
 
 func (l *Lexer) readRawString() string {
